@@ -1,9 +1,129 @@
 import Driver.Loop
+import Driver.DatasetProto
+import Midgard.Model.H5Dataset
 
-/-! Driver for C10: placeholder until the model is written. -/
+/-!
+Driver for C10.
+
+  `c10 rt <units> <op> | <op> | … | write <d> <level>`
+      builds the world with the C09 operations, writes dataset `d` at `level` into the abstract
+      store, reads it back and answers `ok:<rendering of the dataset read back>`,
+      `ERR:w:<enum>` (the write raised) or `ERR:r:<enum>` (the read raised).
+  `c10 restrict <units> <ops> | write <d> <level>`
+      answers the rendering of the original dataset restricted to the fields of that level.
+  `c10 codec <meta tokens>`
+      answers the rendering of `decode (encode meta)`, `unsavable` when `encode` refuses.
+
+Meta tokens (prefix form): `L n` / `T n` / `S n` followed by n items, `D n` followed by n key/value
+pairs; atoms `i<int>` `f<rat>` `nan` `inf` `ninf` `s<hex>` `bT` `bF` `none`.
+-/
 namespace Driver.C10
+open Midgard.Proto Midgard.Dataset Midgard.H5 Midgard.H5Attr Driver.DS
+
+/-- run the set-up operations (all must succeed) -/
+def build (w : W) : List (List String) → Option W
+  | [] => some w
+  | ts :: rest =>
+    let ts := match ts with
+      | "q" :: r => r
+      | r => r
+    match parseOp? ts with
+    | none => none
+    | some op =>
+      match step w op with
+      | .error _ => none
+      | .ok (w', _) => build w' rest
+
+def renderDS (h : Heap) (d : DS) : String :=
+  let (sf, _) := renderField.renderFields h d.fields []
+  s!"D0({d.numObs};[{sf}])"
+
+def splitLast {α} : List α → Option (List α × α)
+  | [] => none
+  | [x] => some ([], x)
+  | x :: xs => (splitLast xs).map (fun (i, l) => (x :: i, l))
+
+/-! ### meta tokens -/
+
+def parseAtom? (s : String) : Option Atom :=
+  if s == "nan" then some .nan
+  else if s == "inf" then some .inf
+  else if s == "ninf" then some .ninf
+  else if s == "none" then some .none
+  else if s == "bT" then some (.bool true)
+  else if s == "bF" then some (.bool false)
+  else if s.startsWith "i" then ((s.drop 1).toString.toInt?).map .int
+  else if s.startsWith "f" then (parseRat? (s.drop 1).toString).map .flt
+  else if s.startsWith "s" then (decodeHex? (s.drop 1).toString).map .str
+  else none
+
+mutual
+partial def parseMeta : List String → Option (Meta × List String)
+  | "L" :: n :: rest => do let n ← n.toNat?; let (xs, r) ← parseMetas n rest; pure (.list xs, r)
+  | "T" :: n :: rest => do let n ← n.toNat?; let (xs, r) ← parseMetas n rest; pure (.tuple xs, r)
+  | "S" :: n :: rest => do let n ← n.toNat?; let (xs, r) ← parseMetas n rest; pure (.set xs, r)
+  | "D" :: n :: rest => do
+    let n ← n.toNat?
+    let (xs, r) ← parseMetas (2 * n) rest
+    let rec pairs : List Meta → List (Meta × Meta)
+      | k :: v :: t => (k, v) :: pairs t
+      | _ => []
+    pure (.dict (pairs xs), r)
+  | a :: rest => do let a ← parseAtom? a; pure (.atom a, rest)
+  | [] => none
+partial def parseMetas : Nat → List String → Option (List Meta × List String)
+  | 0, ts => some ([], ts)
+  | n + 1, ts => do
+    let (x, r) ← parseMeta ts
+    let (xs, r') ← parseMetas n r
+    pure (x :: xs, r')
+end
+
+def showAtom : Atom → String
+  | .int i => s!"i{i}"
+  | .flt q => "f" ++ showRat q
+  | .nan => "nan" | .inf => "inf" | .ninf => "ninf" | .none => "none"
+  | .str s => "s" ++ encodeHex s
+  | .bool b => if b then "bT" else "bF"
+
+partial def showMeta : Meta → String
+  | .atom a => showAtom a
+  | .list xs => s!"L {xs.length}" ++ String.join (xs.map (fun x => " " ++ showMeta x))
+  | .tuple xs => s!"T {xs.length}" ++ String.join (xs.map (fun x => " " ++ showMeta x))
+  | .set xs => s!"S {xs.length}" ++ String.join (xs.map (fun x => " " ++ showMeta x))
+  | .dict kvs => s!"D {kvs.length}" ++ String.join (kvs.map (fun (k, v) => " " ++ showMeta k ++ " " ++ showMeta v))
 
 def handle : List String → Option String
+  | "c10" :: "codec" :: rest => do
+    let (m, r) ← parseMeta rest
+    if !r.isEmpty then none else
+    match encode m with
+    | none => pure "unsavable"
+    | some a => match decode a with
+      | none => pure "undecodable"
+      | some m' => pure (showMeta m')
+  | "c10" :: mode :: units :: rest => do
+    let us ← parseUnits? units
+    let (ops, last) ← splitLast (splitOps rest)
+    let w ← build { units := us } ops
+    match last with
+    | ["write", d, lvl] =>
+      let d ← d.toNat?
+      let lvl ← lvl.toNat?
+      match w.getDs d with
+      | .error _ => none
+      | .ok x =>
+        if mode == "restrict" then
+          pure ("ok:" ++ renderDS w.heap { x with fields := restrictFields lvl x.fields })
+        else if mode == "rt" then
+          match writeDS w.heap x lvl with
+          | .error e => pure ("ERR:w:" ++ showErr e)
+          | .ok file =>
+            match readDS file with
+            | .error e => pure ("ERR:r:" ++ showErr e)
+            | .ok (h', x') => pure ("ok:" ++ renderDS h' x')
+        else none
+    | _ => none
   | _ => none
 
 end Driver.C10
